@@ -2,7 +2,6 @@
 package health
 
 import (
-	"archive/tar"
 	"bytes"
 	"compress/gzip"
 	"context"
@@ -1316,55 +1315,9 @@ func extractTarWithFallback(r io.Reader, destDir string) error {
 		reader = gzr
 	}
 
-	// Create tar reader
-	tr := tar.NewReader(reader)
-
-	for {
-		header, err := tr.Next()
-		if err == io.EOF {
-			break
-		}
-		if err != nil {
-			return fmt.Errorf("failed to read tar header: %w", err)
-		}
-
-		targetPath := filepath.Join(destDir, header.Name)
-
-		// Security check
-		if !strings.HasPrefix(filepath.Clean(targetPath), filepath.Clean(destDir)) {
-			return fmt.Errorf("tar entry attempts path traversal: %s", header.Name)
-		}
-
-		switch header.Typeflag {
-		case tar.TypeDir:
-			if err := os.MkdirAll(targetPath, os.FileMode(header.Mode)); err != nil {
-				return err
-			}
-		case tar.TypeReg:
-			if err := os.MkdirAll(filepath.Dir(targetPath), 0755); err != nil {
-				return err
-			}
-			f, err := os.OpenFile(targetPath, os.O_CREATE|os.O_WRONLY|os.O_TRUNC, os.FileMode(header.Mode))
-			if err != nil {
-				return err
-			}
-			if _, err := io.Copy(f, tr); err != nil {
-				f.Close()
-				return err
-			}
-			f.Close()
-		case tar.TypeSymlink:
-			if err := os.MkdirAll(filepath.Dir(targetPath), 0755); err != nil {
-				return err
-			}
-			os.Remove(targetPath)
-			if err := os.Symlink(header.Linkname, targetPath); err != nil {
-				return err
-			}
-		}
-	}
-
-	return nil
+	// Extract with the same path, symlink and hard link validation as
+	// directory transfers between agents
+	return filetransfer.ExtractTar(reader, destDir)
 }
 
 // handleTriggerAdvertise handles POST /routes/advertise to trigger immediate route advertisement.
